@@ -1,150 +1,92 @@
-(* C10 - "the association is forgotten": for every number of associations and every schedule without Stop, an
-   established association that has reported its address is either still queued on pConnDone or no longer in
-   pConns; once the node has drained the channel a fresh Setup from that address is processed. *)
+(* C10 - consequences without Stop: the node keeps draining pConnDone, the listening socket stays open, so an
+   ended association is forgotten and a fresh Setup from its address is processed; established associations
+   never run NewPFCPConn again. *)
 From Coq Require Import NArith String List Bool Arith Lia.
-From UPF Require Import Base.LTS Model.Teardown Proofs.TeardownInv Proofs.TeardownProofs.
+From UPF Require Import Base.LTS Model.Teardown Proofs.TeardownInv Proofs.TeardownProofs Proofs.TeardownStop.
 Import ListNotations.
 Open Scope list_scope.
 
-Lemma memN_remove_all_same x l : memN x (remove_all x l) = false.
+Lemma ns_run cfg ev sch : no_stop ev -> GInv cfg (run (init cfg ev) sch) /\ NS (run (init cfg ev) sch).
 Proof.
-  induction l as [|y l IH]; cbn; [reflexivity|]. destruct (N.eqb x y) eqn:E; [exact IH|]. cbn. rewrite E. exact IH.
-Qed.
-Lemma memN_remove_all_false x y l : memN x l = false -> memN x (remove_all y l) = false.
-Proof.
-  induction l as [|z l IH]; cbn; [reflexivity|]. intros H. apply orb_false_elim in H. destruct H as [H1 H2].
-  destruct (N.eqb y z); [apply IH; exact H2|]. cbn. rewrite H1. apply IH. exact H2.
+  intros Hns. unfold run. apply (run_inv state tid step (fun s => GInv cfg s /\ NS s)).
+  - intros s l s' [Hg Hn] Hs. split; [eapply ginv_step; eauto | eapply ns_step; eauto].
+  - split; [apply ginv_init | apply ns_init; exact Hns].
 Qed.
 
-Lemma thread_step_running me r alt nd a t x : thread_step me r alt nd a t = Ok x -> t_st t = TRunning.
-Proof. unfold thread_step. destruct (t_st t); try discriminate. reflexivity. Qed.
+(* the node's loop can always take a queued completion (it never leaves its select without Stop), so when it
+   cannot move the channel is empty *)
+Lemma quiet_buffer_empty cfg ev sch :
+  no_stop ev -> step (run (init cfg ev) sch) (TNode 0) = None ->
+  cbuf (n_pcd (s_node (run (init cfg ev) sch))) = [].
+Proof.
+  intros Hns H. destruct (ns_run cfg ev sch Hns) as [_ [Hp Hc Hd Ht Hs Hpe Hm Hl Hcap He]].
+  set (s := run (init cfg ev) sch) in *.
+  unfold step in H. unfold dead in H. rewrite Hp, Hm in H. cbn in H.
+  destruct (s_node s) as [cx pc dn ls mp ex bu mn np nn cr en th sp pe] eqn:End. cbn in *. subst cx th sp mn.
+  unfold thread_step in H. cbn in H. unfold ch_recv in H.
+  destruct (cbuf pc) as [|v rest]; [reflexivity|]. cbn in H. discriminate.
+Qed.
 
-Definition FInv (cfg : list acfg) (s : state) : Prop :=
+Theorem fresh_setup_without_stop cfg ev sch i a :
+  no_stop ev -> nth_error (s_asc (run (init cfg ev) sch)) i = Some a -> a_once a = ODone ->
+  cbuf (n_pcd (s_node (run (init cfg ev) sch))) = [] ->
+  in_map (run (init cfg ev) sch) i = false /\ fresh_setup_processed (run (init cfg ev) sch) i = true.
+Proof.
+  intros Hns Ha Ho Hb.
+  assert (Hm : in_map (run (init cfg ev) sch) i = false).
+  { eapply forgotten_all; eauto. rewrite Hb. intros []. }
+  split; [exact Hm|]. unfold fresh_setup_processed. rewrite Hm.
+  destruct (ns_run cfg ev sch Hns) as [_ [_ _ _ _ _ _ _ Hl _ _]]. rewrite Hl. reflexivity.
+Qed.
+
+(* an established association's accept goroutine has long returned *)
+Definition EInv (cfg : list acfg) (s : state) : Prop :=
   forall i c a, nth_error cfg i = Some c -> c_first c = None -> nth_error (s_asc s) i = Some a ->
-    t_st (a_fst a) = TFinished /\
-    (rep a = true -> In (N.of_nat i) (cbuf (n_pcd (s_node s))) \/ memN (N.of_nat i) (n_map (s_node s)) = false).
+    t_st (a_fst a) = TFinished.
 
-Lemma finv_init cfg ev : FInv cfg (init cfg ev).
+Lemma einv_init cfg ev : EInv cfg (init cfg ev).
 Proof.
   intros i c a Hc Hf Ha. unfold init, init_cap in Ha. cbn in Ha. rewrite nth_error_map, Hc in Ha. cbn in Ha.
-  injection Ha as <-. destruct c as [sess hb [d|]]; [discriminate|]. cbn. split; [reflexivity|discriminate].
+  injection Ha as <-. destruct c as [sess hb [d|]]; [discriminate|]. reflexivity.
 Qed.
 
-Lemma rep_env_fields a : (forall v, rep (set_inbox a v) = rep a /\ a_fst (set_inbox a v) = a_fst a)
-  /\ (forall v, rep (set_tmo_armed a v) = rep a /\ a_fst (set_tmo_armed a v) = a_fst a)
-  /\ (forall v, rep (set_hb_armed a v) = rep a /\ a_fst (set_hb_armed a v) = a_fst a).
+Lemma einv_step cfg s l s' : GInv cfg s -> EInv cfg s -> step s l = Some s' -> EInv cfg s'.
 Proof.
-  destruct a as [st de on sh tm hb so ib ta ha rd se ht fs]. unfold rep. cbn.
-  repeat split; destruct on as [|r0|]; try reflexivity; destruct r0; reflexivity.
-Qed.
-
-Lemma finv_env cfg s e : is_stop_ev e = false -> FInv cfg s -> FInv cfg (apply_env s e).
-Proof.
-  intros He H i c a Hc Hf Ha.
-  destruct (apply_env_node s e He) as (-> & _ & _).
-  destruct e as [j d|j|j| |]; try discriminate He; cbn in Ha;
-    (destruct (nth_error (s_asc s) j) as [b|] eqn:Eb; cbn in Ha; [|eapply H; eauto]);
-    (destruct (Nat.eq_dec j i) as [->|Hne];
-     [ rewrite (nth_error_upd_same _ _ _ _ Eb) in Ha; injection Ha as <-;
-       destruct (H i c b Hc Hf Eb) as [H1 H2]; destruct (rep_env_fields b) as (R1 & R2 & R3)
-     | rewrite nth_error_upd_other in Ha by exact Hne; eapply H; eauto ]).
-  - destruct (R1 (a_inbox b ++ [d])) as [-> ->]. auto.
-  - destruct (R2 true) as [-> ->]. auto.
-  - destruct (R3 true) as [-> ->]. auto.
-Qed.
-
-Lemma at_first_false sess a r : AInv sess a -> t_st (a_fst a) = TFinished -> t_st (get_thr a r) = TRunning ->
-  is_assoc_role r = true -> at_pc a r FFirst 2 = false.
-Proof.
-  intros (Hrd & Hsel & Hhb & Hfst & _) Hfin Hrun Hr. unfold at_pc.
-  destruct r; try discriminate Hr; unfold fn_ok in *; cbn in *.
-  - destruct Hrd as [[-> _]|[-> _]]; reflexivity.
-  - destruct Hsel as [[-> _]|[-> _]]; reflexivity.
-  - destruct Hhb as [[-> _]|[-> _]]; reflexivity.
-  - congruence.
-Qed.
-
-Lemma finv_step cfg s l s' : GInv cfg s -> NS s -> FInv cfg s -> step s l = Some s' -> FInv cfg s'.
-Proof.
-  intros Hg [Hp Hc Hd Ht Hs Hm Hl Hcap He] Hf H. unfold step in H. unfold dead in H. rewrite Hp, Hm in H.
-  destruct l as [k|alt| |j r alt].
-  - destruct (nth_error (s_env s) k) as [e|] eqn:Ek; [|discriminate]. injection H as <-.
-    intros i c a Hci Hfi Ha. cbn in *. eapply (finv_env cfg s e); eauto. eapply no_stop_nth; eauto.
+  intros Hg Hf H. unfold step in H. destruct (dead s); [discriminate|].
+  destruct l as [k|alt| | |j r alt].
+  - destruct (nth_error (s_env s) k) as [e|]; [|discriminate]. injection H as <-.
+    intros i c a Hci Hfi Ha. cbn in Ha.
+    destruct e as [x d|x|x| |]; cbn in Ha; try (eapply Hf; eauto; fail);
+      (destruct (nth_error (s_asc s) x) as [b|] eqn:Eb; cbn in Ha; [|eapply Hf; eauto]);
+      (destruct (Nat.eq_dec x i) as [->|Hne];
+       [ rewrite (nth_error_upd_same _ _ _ _ Eb) in Ha; injection Ha as <-;
+         pose proof (Hf i c b Hci Hfi Eb) as H1; destruct b; exact H1
+       | rewrite nth_error_upd_other in Ha by exact Hne; eapply Hf; eauto ]).
   - destruct (Nat.leb 3 alt); [discriminate|].
-    destruct (s_node s) as [cx pc dn ls mp ex bu mn th sp] eqn:End. cbn in *. subst cx th sp mn.
-    unfold thread_step in H. cbn in H.
-    destruct alt as [|[|[|alt]]]; cbn in H; try discriminate.
-    unfold ch_recv in H. destruct (cbuf pc) as [|v rest] eqn:Eb.
-    + rewrite Hd in H. discriminate.
-    + cbn in H. injection H as <-. intros i c a Hci Hfi Ha. cbn in *.
-      destruct (Hf i c a Hci Hfi Ha) as [H1 H2]. rewrite End in H2. cbn in H2. rewrite Eb in H2.
-      split; [exact H1|]. intros Hr. destruct (H2 Hr) as [[<-|Hin]|Hm'].
-      * right. apply memN_remove_all_same.
-      * left. exact Hin.
-      * right. apply memN_remove_all_false. exact Hm'.
-  - rewrite Hs in H. cbn in H. discriminate.
+    destruct (thread_step 0 RNode alt (s_node s) assoc0 (n_thr (s_node s))) as [[[nd' a'] t']| |site];
+      try discriminate; injection H as <-; exact Hf.
+  - destruct (thread_step 0 RStop 0 (s_node s) assoc0 (n_stop (s_node s))) as [[[nd' a'] t']| |site];
+      try discriminate; injection H as <-; exact Hf.
+  - destruct (thread_step 0 RPeers 0 (s_node s) assoc0 (n_peers (s_node s))) as [[[nd' a'] t']| |site];
+      try discriminate; injection H as <-; exact Hf.
   - destruct (negb (is_assoc_role r) || Nat.leb 3 alt) eqn:Eg; [discriminate|].
     apply orb_false_elim in Eg. destruct Eg as [Er _]. apply negb_false_iff in Er.
     destruct (nth_error (s_asc s) j) as [b|] eqn:Eb; [|discriminate].
     destruct (Forall2_nth _ _ _ _ _ Hg Eb) as (se & Hse & Hb).
     pose proof (step_assoc se (N.of_nat j) r alt (s_node s) b _ Er Hb eq_refl) as Hstep.
-    destruct (thread_step (N.of_nat j) r alt (s_node s) b (get_thr b r)) as [[[nd' a'] t']| |site] eqn:Ets;
-      try discriminate; injection H as <-.
-    + destruct Hstep as [[_ (D1 & D2 & D3 & D4)] _].
-      pose proof (thread_step_running _ _ _ _ _ _ _ Ets) as Hrun.
-      intros i c a Hci Hfi Ha. cbn in *.
-      destruct (Nat.eq_dec j i) as [->|Hne].
-      * rewrite (nth_error_upd_same _ _ _ _ Eb) in Ha. injection Ha as <-.
-        destruct (Hf i c b Hci Hfi Eb) as [H1 H2].
-        split; [apply D4; exact H1|]. intros Hr. rewrite D3 in Hr.
-        rewrite (at_first_false se b r Hb H1 Hrun Er) in D2. rewrite D1, D2.
-        destruct (at_pc b r FDo 5).
-        -- left. apply in_or_app. right. left. reflexivity.
-        -- rewrite orb_false_r in Hr. exact (H2 Hr).
-      * rewrite nth_error_upd_other in Ha by exact Hne.
-        destruct (Hf i c a Hci Hfi Ha) as [H1 H2]. split; [exact H1|]. intros Hr.
-        rewrite D1, D2. destruct (H2 Hr) as [Hin|Hm'].
-        -- left. destruct (at_pc b r FDo 5); [apply in_or_app; left|]; exact Hin.
-        -- right. destruct (at_pc b r FFirst 2); [|exact Hm']. cbn.
-           assert (N.eqb (N.of_nat i) (N.of_nat j) = false) as -> by (apply N.eqb_neq; lia).
-           cbn. apply memN_remove_all_false. exact Hm'.
-    + intros i c a Hci Hfi Ha. cbn in *. eapply Hf; eauto.
+    destruct (thread_step (N.of_nat j) r alt (s_node s) b (get_thr b r)) as [[[nd' a'] t']| |site];
+      try discriminate; injection H as <-; [|exact Hf].
+    destruct Hstep as [[_ (_ & _ & _ & _ & _ & _ & _ & D4)] _].
+    intros i c a Hci Hfi Ha. cbn in Ha. destruct (Nat.eq_dec j i) as [->|Hne].
+    + rewrite (nth_error_upd_same _ _ _ _ Eb) in Ha. injection Ha as <-. apply D4. eapply Hf; eauto.
+    + rewrite nth_error_upd_other in Ha by exact Hne. eapply Hf; eauto.
 Qed.
 
-Theorem forgotten_without_stop cfg ev sch i c a :
-  no_stop ev -> nth_error cfg i = Some c -> c_first c = None ->
-  nth_error (s_asc (run (init cfg ev) sch)) i = Some a -> a_once a = ODone ->
-  cbuf (n_pcd (s_node (run (init cfg ev) sch))) = [] ->
-  in_map (run (init cfg ev) sch) i = false /\ fresh_setup_processed (run (init cfg ev) sch) i = true.
+Lemma einv_run cfg ev sch : EInv cfg (run (init cfg ev) sch).
 Proof.
-  intros Hns Hc Hfi Ha Ho Hbuf.
-  set (P := fun s => (GInv cfg s /\ NS s) /\ FInv cfg s).
-  assert (H : P (run (init cfg ev) sch)).
-  { unfold run. apply (run_inv state tid step P).
-    - intros s l s' [[Hg Hn] Hf] Hs. split; [split; [eapply ginv_step; eauto | eapply ns_step; eauto]|].
-      eapply finv_step; eauto.
-    - split; [split; [apply ginv_init | apply ns_init; exact Hns]|apply finv_init]. }
-  destruct H as [[_ Hn] Hf]. destruct (Hf i c a Hc Hfi Ha) as [_ H2].
-  assert (Hr : rep a = true) by (unfold rep; rewrite Ho; reflexivity).
-  destruct (H2 Hr) as [Hin|Hm]; [rewrite Hbuf in Hin; destruct Hin|].
-  unfold fresh_setup_processed, in_map. rewrite Hm. destruct Hn as [_ _ _ _ _ _ Hl _ _]. rewrite Hl. auto.
-Qed.
-
-(* the node's loop can always take a queued completion (it never leaves its select without Stop), so when no thread
-   can move the channel is empty *)
-Lemma quiet_buffer_empty cfg ev sch :
-  no_stop ev -> step (run (init cfg ev) sch) (TNode 0) = None ->
-  cbuf (n_pcd (s_node (run (init cfg ev) sch))) = [].
-Proof.
-  intros Hns H.
-  assert (Hn : GInv cfg (run (init cfg ev) sch) /\ NS (run (init cfg ev) sch)).
-  { unfold run. apply (run_inv state tid step (fun s => GInv cfg s /\ NS s)).
-    - intros s l s' [Hg Hn] Hs. split; [eapply ginv_step; eauto | eapply ns_step; eauto].
-    - split; [apply ginv_init | apply ns_init; exact Hns]. }
-  destruct Hn as [_ [Hp Hc Hd Ht Hs Hm Hl Hcap He]].
-  set (s := run (init cfg ev) sch) in *.
-  unfold step in H. unfold dead in H. rewrite Hp, Hm in H. cbn in H.
-  destruct (s_node s) as [cx pc dn ls mp ex bu mn th sp] eqn:End. cbn in *. subst cx th sp mn.
-  unfold thread_step in H. cbn in H. unfold ch_recv in H.
-  destruct (cbuf pc) as [|v rest]; [reflexivity|]. cbn in H. discriminate.
+  assert (H : GInv cfg (run (init cfg ev) sch) /\ EInv cfg (run (init cfg ev) sch)).
+  { unfold run. apply (run_inv state tid step (fun s => GInv cfg s /\ EInv cfg s)).
+    - intros s l s' [Hg He] Hs. split; [eapply ginv_step; eauto | eapply einv_step; eauto].
+    - split; [apply ginv_init | apply einv_init]. }
+  destruct H as [_ H]. exact H.
 Qed.
